@@ -149,6 +149,9 @@ func (g *instGen) cache(r *Rng) int {
 		return r.Intn(len(g.inst.Caches))
 	}
 	var c [][2]int64
+	if r.Chance(30) {
+		c = append(c, [2]int64{0, 40}) // an entry under the empty key, put there by someone else: never read, never written
+	}
 	for k := int64(1); k <= 3; k++ {
 		if r.Chance(30) {
 			c = append(c, [2]int64{k, 40 + k})
@@ -618,7 +621,7 @@ func TestDrive_C07(t *testing.T) {
 	driveC07Race(t)
 	pf := execProfile{name: "C07", kinds: []string{"Timeout", "Timeout", "Retry", "Fallback", "Bulkhead", "Limiter", "Breaker"}, hedgePct: 20, maxDepth: 4, mustHave: "Timeout", extPct: 0, coopPct: 50, maxReqs: 2, withExec: true}
 	driveExec(t, "C07", pf, 0, 0,
-		"stacks containing at least one Timeout (limits 1.5-8.5 us with distinct residues) alone and relative to retry, fallback, bulkhead, rate limiter and breaker, including nested timeouts; function durations placed at 0, limit/2, limit-1ns, limit+1ns, 2*limit, 3*limit+7 for cooperative (return on cancellation) and non-cooperative functions; plus retries around a Timeout where an earlier attempt timed out and the caller cancels in the middle of a later attempt; plus executions whose caller's context is already cancelled (or past its deadline) when they start. Non-trivial = a timeout fired or a failure was handled. "+execRule,
+		"stacks containing at least one Timeout (limits 1.5-8.5 us with distinct residues) alone and relative to retry, fallback, bulkhead, rate limiter and breaker, including nested timeouts; function durations placed at 0, limit/2, limit-1ns, limit+1ns, 2*limit, 3*limit+7 for cooperative (return on cancellation) and non-cooperative functions; plus retries around a Timeout where an earlier attempt timed out and the caller cancels in the middle of a later attempt; plus executions whose caller's context is already cancelled (or past its deadline) when they start; plus Timeouts with a zero or negative limit. Non-trivial = a timeout fired or a failure was handled. "+execRule,
 		func(w *CaseWriter, rng *Rng, add func(InstD, []ReqD, string)) {
 			n := 450
 			if envTier() == "thorough" {
@@ -638,7 +641,39 @@ func TestDrive_C07(t *testing.T) {
 			}
 			cancelAfterEarlierTimeout(rng, m, add)
 			preCancelled(rng, m, true, add)
+			nonPositiveLimit(rng, m, add)
 		})
+}
+
+// a Timeout whose limit is zero or negative has elapsed when the attempt starts: any function that takes time is timed out
+func nonPositiveLimit(rng *Rng, m int, add func(InstD, []ReqD, string)) {
+	for i := 0; i < m; i++ {
+		limit := Pick(rng, []int64{0, 0, -1, -4096})
+		stack := []PolD{{K: "Timeout", Limit: limit}}
+		if rng.Chance(40) {
+			stack = append([]PolD{{K: "Retry", MaxRetries: int64(1 + rng.Intn(2)), Delay: Pick(rng, []int64{0, 2048})}}, stack...)
+		} else if rng.Chance(30) {
+			stack = append([]PolD{{K: "Fallback", FBKind: "Result", FBR: 3}}, stack...)
+		}
+		coop := OutD{R: -5, Err: &ErrD{K: "Sent", A: 2}}
+		step := FnStepD{Out: genOutcome(rng), Dur: int64(1+rng.Intn(4)) * 1024}
+		rq := ReqD{Stack: stack, CtxKey: -1, Entry: Pick(rng, append(append([]string{}, execEntries...), plainEntries...)), Script: []FnStepD{step, step}}
+		if strings.Contains(rq.Entry, "WithExecution") && rng.Bool() {
+			rq.Script[0].Coop, rq.Script[0].Lag = &coop, int64(1+rng.Intn(5))
+			rq.Script[1] = rq.Script[0]
+		}
+		if strings.HasPrefix(rq.Entry, "Run") {
+			for k := range rq.Script {
+				rq.Script[k].Out.R = 0
+				if rq.Script[k].Coop != nil {
+					c0 := coop
+					c0.R = 0
+					rq.Script[k].Coop = &c0
+				}
+			}
+		}
+		add(InstD{}, []ReqD{rq}, "non-positive-limit")
+	}
 }
 
 // a retry policy around a Timeout: an earlier attempt times out, then the caller's context is cancelled (or its deadline
